@@ -105,6 +105,8 @@ type StreamOpts struct {
 	CacheSize   uint16
 	HSTimeout   time.Duration
 	EnableCSM   bool
+	OnNewTCP    func(cc *tcpclient.Conn)
+	OnNewDTLS   func(cc *udpclient.Conn)
 }
 
 func NewTCP(o StreamOpts) *TCP {
@@ -124,7 +126,12 @@ func NewTCP(o StreamOpts) *TCP {
 		if o.CacheSize != 0 {
 			cfg.ConnectionCacheSize = o.CacheSize
 		}
-		cfg.OnNewConn = func(*tcpclient.Conn) { t.NewConns++ }
+		cfg.OnNewConn = func(cc *tcpclient.Conn) {
+			t.NewConns++
+			if o.OnNewTCP != nil {
+				o.OnNewTCP(cc)
+			}
+		}
 	}))
 	vrt.Lib("tcp-server-serve", func() {
 		t.ServeErr = t.S.Serve(t.L)
@@ -163,7 +170,12 @@ func NewDTLS(o StreamOpts) *DTLS {
 		if o.MaxMsgSize != 0 {
 			cfg.MaxMessageSize = o.MaxMsgSize
 		}
-		cfg.OnNewConn = func(*udpclient.Conn) { t.NewConns++ }
+		cfg.OnNewConn = func(cc *udpclient.Conn) {
+			t.NewConns++
+			if o.OnNewDTLS != nil {
+				o.OnNewDTLS(cc)
+			}
+		}
 	}))
 	vrt.Lib("dtls-server-serve", func() {
 		t.ServeErr = t.S.Serve(t.L)
